@@ -27,6 +27,9 @@ import Proofs.C12Expr
 namespace Props.C12
 open FqModel.Nav Proofs.C12Nav Proofs.C12Expr
 
+def exInfo (name : String) (index : Int) (kind : Kind) (isRoot hasFormat : Bool := false) : Info :=
+  { name := name, index := index, isRoot := isRoot, hasFormat := hasFormat, kind := kind }
+
 /-! ### (a) -/
 
 /-- the path fq reports for a value resolves from the root back to that same value -/
@@ -48,6 +51,41 @@ theorem parent_contains (t : Tree) (h : WF t) (k : Nat) (up : Ptr) (v : Tree)
        (p.info.kind = .array ∧ v.info.index = (k : Int) ∧
           (pathOf t (k :: up)).getLast? = some (.inr (k : Int)))) :=
   ⟨rfl, Proofs.C12Nav.parent_contains h hv⟩
+
+/-- keys ↔ children: in a struct no name occurs twice among the children (so `keys` has no duplicates and as
+    many elements as there are children), and indexing the compound with a child's own key — its name in a
+    struct, its position in an array — gives exactly that child. (What a partial tree must also satisfy: a
+    decode error after fields were added, e.g. `"x" already exist in struct`, must not leave a second child
+    with the same name behind.) -/
+theorem children_by_key (t : Tree) (h : WF t) (n : Ptr) (v : Tree) (hv : deref t n = some v) :
+    (v.info.kind = .struct → (v.kids.map (fun c => c.info.name)).Nodup) ∧
+    (childKeys v).length = v.kids.length ∧
+    ∀ k c, v.kids[k]? = some c →
+      (v.info.kind = .struct → step t n (.inl c.info.name) = some (k :: n)) ∧
+      (v.info.kind = .array → step t n (.inr (k : Int)) = some (k :: n)) := by
+  refine ⟨?_, ?_, ?_⟩
+  · intro hkind
+    have hl := (wf_local (wf_deref h hv)).1
+    unfold localOK at hl
+    rw [hkind] at hl
+    exact names_nodup_of hl
+  · have hl := (wf_local (wf_deref h hv)).1
+    unfold localOK at hl
+    unfold childKeys
+    cases hkind : v.info.kind with
+    | leaf => rw [hkind] at hl; simp at hl; simp [hl]
+    | struct => simp
+    | array => simp
+  · intro k c hk
+    exact ⟨fun hkind => step_struct_child h hv hk hkind, fun hkind => step_array_child h hv hk hkind⟩
+
+/-- the shape the seeded AddChild reorder leaves behind (two children named `b`): not well-formed, and the
+    second child is unreachable by its key — `.b` gives the first -/
+theorem wf_needed_keys :
+    let t : Tree := .mk (exInfo "" (-1) .struct true true)
+      [ .mk (exInfo "b" (-1) .leaf) [], .mk (exInfo "b" (-1) .leaf) [] ]
+    ¬ WF t ∧ step t [] (.inl "b") = some [0] ∧ ¬ ((t.kids.map (fun c => c.info.name)).Nodup) := by
+  decide
 
 /-! ### (c)–(e) roots -/
 
@@ -213,9 +251,6 @@ theorem expr_examples :
   decide
 
 /-! ### non-vacuity, and the hypotheses that cannot be dropped -/
-
-def exInfo (name : String) (index : Int) (kind : Kind) (isRoot hasFormat : Bool := false) : Info :=
-  { name := name, index := index, isRoot := isRoot, hasFormat := hasFormat, kind := kind }
 
 /-- a gzip-like tree: struct root with a nested buffer that has its own format, an array with a gap field
     appended, non-identifier names -/
